@@ -21,6 +21,7 @@ structure BusyInv (N T : Nat) (st : State) : Prop where
   uniq : ∀ t u c, (st.th t).op.cons = true → (st.th u).op.cons = true →
     (st.th t).op.cell? = some c → (st.th u).op.cell? = some c → t = u
   ccell : ∀ t c p, (st.th t).op.consWalk c p → st.sh.cells c = some p
+  cdec : ∀ t c p, (st.th t).op = .dropcDec c p → st.sh.cells c = some p
 
 theorem BusyInv.initial (N T : Nat) (cfg : Cfg) (progs : Nat → List (String × Op)) : BusyInv N T (State.initial cfg progs) :=
   ⟨(fun _ _ => rfl), (fun c => by
@@ -28,7 +29,7 @@ theorem BusyInv.initial (N T : Nat) (cfg : Cfg) (progs : Nat → List (String ×
         rw [← sumN_zero T]; exact sumN_congr (fun n _ => by simp [State.initial, OpSt.nb, OpSt.cell?])
       omega),
    (fun t c h => by cases h), (fun t c h => by cases h), (fun t c h => by cases h), (fun t u c h => by cases h),
-   (fun t c p h => by rcases h with ⟨_, _, h⟩ | ⟨_, h⟩ <;> cases h)⟩
+   (fun t c p h => by rcases h with ⟨_, _, h⟩ | ⟨_, h⟩ <;> cases h), (fun t c p h => by cases h)⟩
 
 theorem OpSt.consWalk_cons {op : OpSt} {c p : Nat} (h : op.consWalk c p) : op.cons = true ∧ op.cell? = some c := by
   rcases h with ⟨x, pp, rfl⟩ | ⟨pp, rfl⟩ <;> exact ⟨rfl, rfl⟩
@@ -78,7 +79,7 @@ theorem BusyInv.step {N T : Nat} {st : State} (h : BusyInv N T st) (hx : ∀ t, 
         exact absurd this hne)]
       exact hne
   refine ⟨fun u hu => ?_, fun c => ?_, fun u c hcons hcell => ?_, fun u c hcons hcell => ?_, fun u c hcell hcons => ?_,
-    fun u1 u2 c hc1 hc2 hl1 hl2 => ?_, fun u c p hw => ?_⟩
+    fun u1 u2 c hc1 hc2 hl1 hl2 => ?_, fun u c p hw => ?_, fun u c p hd => ?_⟩
   · -- idle beyond T
     have : u ≠ t := by omega
     rw [hoth u this]; exact h.idle u hu
@@ -166,6 +167,25 @@ theorem BusyInv.step {N T : Nat} {st : State} (h : BusyInv N T st) (hx : ∀ t, 
     · rw [hoth u e] at hw
       obtain ⟨hcons, hcell⟩ := OpSt.consWalk_cons hw
       have hcp := h.ccell u c p hw
+      have htk := h.taken u c hcons hcell
+      rw [microStep_cells_other st t b c ?_ ?_]
+      · exact hcp
+      · intro hc
+        cases hcb : (st.th t).op.cons with
+        | false => have := (h.free t c hc hcb).2.2; rw [htk] at this; cases this
+        | true => exact e (h.uniq u t c hcons hcb hcell hc)
+      · intro hidle txt x rest hp
+        have := (htame hidle txt _ rest hp).2 c x rfl
+        rw [hcp] at this; cases this
+  · -- … and until the final decrement of a drop
+    by_cases e : u = t
+    · subst e
+      obtain ⟨⟨pp, h1⟩, h2⟩ := microStep_dropcDec st u b c p hd
+      rw [h2]; exact h.ccell u c p (Or.inr ⟨pp, h1⟩)
+    · rw [hoth u e] at hd
+      have hcons : (st.th u).op.cons = true := by rw [hd]; rfl
+      have hcell : (st.th u).op.cell? = some c := by rw [hd]; rfl
+      have hcp := h.cdec u c p hd
       have htk := h.taken u c hcons hcell
       rw [microStep_cells_other st t b c ?_ ?_]
       · exact hcp
